@@ -1019,12 +1019,23 @@ func c03ExtensionRegistration(c *Ctx) {
 		}
 		return "", false
 	}
-	for _, b := range fn.Blocks {
-		for _, in := range b.Instrs {
-			if ta, ok := in.(*ssa.TypeAssert); ok && ta.CommaOk {
-				for _, h := range hooks {
-					if an.NamedIs(ta.AssertedType, pkgGraphql, h) {
-						asserts[h] = append(asserts[h], ta)
+	// the tests may sit in processExtensions itself or in chain builders of the package it calls (`operationChain(exts)` …)
+	scan := []*ssa.Function{fn}
+	for _, call := range an.CallsIn(fn, func(_ ssa.CallInstruction, ci an.CalleeInfo) bool {
+		return ci.Static != nil && ci.Static.Pkg != nil && ci.Static.Pkg.Pkg.Path() == pkgExecutor && len(ci.Static.Blocks) > 0
+	}) {
+		if call.Parent() == fn {
+			scan = append(scan, an.WithClosures(call.Common().StaticCallee())...)
+		}
+	}
+	for _, f := range scan {
+		for _, b := range f.Blocks {
+			for _, in := range b.Instrs {
+				if ta, ok := in.(*ssa.TypeAssert); ok && ta.CommaOk {
+					for _, h := range hooks {
+						if an.NamedIs(ta.AssertedType, pkgGraphql, h) {
+							asserts[h] = append(asserts[h], ta)
+						}
 					}
 				}
 			}
